@@ -173,7 +173,7 @@ func (r *Runtime) AddPlugin(idx, base string) (*Plugin, error) {
 		return nil, fmt.Errorf("plugin %s: %w", p.Name(), err)
 	}
 	// activation happens after Configure returned: probe until the plugin is invoked
-	deadline := time.Now().Add(10 * time.Second)
+	deadline := time.Now().Add(60 * time.Second)
 	for n := 0; ; n++ {
 		id := fmt.Sprintf("probe-%s-%d", p.Name(), n)
 		if err := r.A.RunPodSandbox(context.Background(), &api.StateChangeEvent{Pod: &api.PodSandbox{Id: id}}); err != nil {
